@@ -46,6 +46,46 @@ T = {
  'C20-A': ('C20', 'seed tested for truthiness: --seed 0 ignored', '--method shuffle --seed 0', ['C20'], []),
  'C20-B': ('C20', 'terminal residue always skips the non-shuffle-pattern test', '--keep-peptide-nterm/cterm false + a pattern residue at that terminus', ['C20'], []),
 }
+
+# round 2 (C/D): written by fresh sub-agents told to avoid the places of round 1
+T.update({
+ 'C03-C': ('C03', 'PVGNode.get_cleavage_gain_variants: `is not None` dropped, a pattern starting at node index 0 counts as no pattern', 'cleavage site gained through a look-behind residue (trypsin WKP/MRP) that is the first residue after another site + a second variant in the downstream peptide: header omits the site-creating SNV', [], []),
+ 'C03-D': ('C03', 'create_mnv_from_adjacent stores the gene id as TRANSCRIPT_ID', 'AS insertion/substitution (retained intron) + two adjacent SNVs inside the inserted region merged as MNV: header ids become <gene>-<id>', [], []),
+ 'C04-C': ('C04', 'iter_enzymatic_cleave_sites collects exception matches with start() instead of end()', 'trypsin exception in force + canonical protein with an exception motif + a non-canonical source reproducing a peptide at that site: canonical peptide written', ['C04', 'C10', 'C12'], []),
+ 'C04-D': ('C04', 'register_canonical_pool loses the index increment', 'generateIndex(trypsin); updateIndex(lysc); callVariant --index-dir with trypsin: second pool overwrites the first file', ['C10', 'C12'], ['C04']),
+ 'C05-C': ('C05', 'load_index collects pointers in a local dict and update()s', 'indexed GVFs (.idx) + two GVF files sharing a transcript: the first file\'s variants are dropped', ['C06', 'C13'], ['C05', 'C01']),
+ 'C05-D': ('C05', 'truncate_sec / w2f passed positionally in swapped order to call_canonical_peptides', 'the two flags differ + a genomic W>F MNV: peptide vanishes when SECT is switched on', ['C05', 'C01'], ['C06', 'C13']),
+ 'C06-C': ('C06', 'VariantRecordPool.filter_variants: sorted() result discarded', 'two adjacent SNVs on a fusion donor + junction-spanning peptide + a hash seed iterating the set in descending order', ['C01'], ['C06']),
+ 'C06-D': ('C06', 'batch flush evaluated only inside `if dispatch:`', '--threads >= 2 + pending partial batch + last transcripts skipped (intronic only)', ['C06'], ['C01']),
+ 'C07-C': ('C07', 'early `continue` for skipped transcripts also skips the end-of-list flush', '--threads > 1 + last transcript in order skipped (unmappable record under --skip-failed, or intronic only) + pending batch', ['C06'], ['C07']),
+ 'C07-D': ('C07', 'fusion result registration moved after the try/except without continue', 'failing fusion that is the first result-producing unit of its transcript: UnboundLocalError despite --skip-failed', ['C07'], ['C06']),
+ 'C08-C': ('C08', 'get_orf_sequences: stop-less ORF one codon short', '--output-orf + ORF without stop whose last codon ends on the last nucleotide of the transcript', ['C08'], []),
+ 'C08-D': ('C08', 'call_novel_orf drops exception= from CleavageParams', 'default --cleavage-exception auto + ORF with a trypsin exception motif', ['C08'], []),
+ 'C09-C': ('C09', 'PVGNode.truncate_left splits the Sec records of the wrong node', '--selenocysteine-termination + Sec codon in the first cleavage fragment of the ORF', ['C09'], ['C08']),
+ 'C09-D': ('C09', 'call_alt_translation drops exception= from CleavageParams', 'trypsin exception in force + exception motif next to a W or upstream of a Sec', ['C09'], ['C08']),
+ 'C10-C': ('C10', 'cds_start_nf flag not reset for proteins whose transcript is absent from the GTF', 'proteome protein starting with M without annotated transcript placed right after a cds_start_NF protein', ['C10'], ['C04']),
+ 'C10-D': ('C10', 'load_references drops min_mw for the on-the-fly pool', 'no index + non-default --min-mw', [], []),
+ 'C11-C': ('C11', 'GTFPointerDict cache and key deque moved to class attributes', 'two indexed annotations in one process sharing ids, or a gene id equal to a transcript id', [], []),
+ 'C11-D': ('C11', 'GtfIO.write extends the model\'s cds list in place', 'write an annotation, then reuse the same object (sequence / ORF, or write again)', [], []),
+ 'C12-C': ('C12', 'generate_index pickles the proteome after it was mutated in place', 'protein with leading X (or --invalid-protein-as-noncoding with *): loaded proteome differs from what was given', [], []),
+ 'C12-D': ('C12', 'wipe_canonical_peptides removes while iterating + init_metadata dropped', 'generate; >= 1 update; generate --force; load with surviving parameters: stale pool of the old reference', [], []),
+ 'C13-C': ('C13', 'load_index appends only when the key is new', '.idx present + a transcript key recurring (non-contiguous blocks or second file)', [], []),
+ 'C13-D': ('C13', 'VariantRecord.__hash__ hashes DONOR_START twice', 'two <INS>/<SUB> records equal in POS/REF/ALT/type and DONOR_START but different DONOR_END: collapsed by set() through the index', [], []),
+ 'C14-C': ('C14', 'cds_start_NF exemption widened to events before the transcript start', 'cds_start_NF transcript starting inside its gene + event before its first base', [], []),
+ 'C14-D': ('C14', 'parse_reditools passes min_coverage_rna as min_coverage_dna', '--min-coverage-dna != --min-coverage-rna and gCoverage between them', [], []),
+ 'C15-C': ('C15', 'get_upstream_exon_end plus strand: `>` became `>=`', 'plus-strand donor whose breakpoint is exactly the first intronic base behind exon >= 2', [], []),
+ 'C15-D': ('C15', 'FusionCatcher parser shares one attrs dict between the records of a row', 'FusionCatcher format + >= 2 eligible isoform pairs', [], []),
+ 'C16-C': ('C16', 'has_junction ignores the last junction of a transcript', 'fully annotated event whose junctions are the last junction of every isoform carrying them', ['C16'], []),
+ 'C16-D': ('C16', 'create_upstream_deletion ends at the first interjacent exon', 'upstream-deletion geometry with >= 2 exons of the transcript inside the event', ['C16'], []),
+ 'C17-C': ('C17', 'CIRCexplorer3 is_valid drops the read-number check', '--circexplorer3 + --min-read-number above a record\'s count', [], []),
+ 'C17-D': ('C17', 'intron_end_range parsed from the start-range option', 'ciRNA overrunning the intron end by 1-5 nt with default ranges', [], []),
+ 'C18-C': ('C18', 'intragenic fusion: acceptor variants overwrite the gene key', 'fusion whose two transcripts share a gene + acceptor-side variant', [], []),
+ 'C18-D': ('C18', 'summarizeFasta registers the internal sources before the GVF sources', 'incomplete --order-source + a peptide with a GVF-source entry and a purely internal entry', [], []),
+ 'C19-C': ('C19', 'circRNA identifiers lose their alt-translation ids when re-rendered', 'CIRC-/CI- entry carrying a W2F- or SECT- id', [], []),
+ 'C19-D': ('C19', 'miscleavage guard tests truthiness', '--miscleavages 0:0', [], []),
+ 'C20-C': ('C20', 'shuffle_sequence appends a single residue instead of the tail slice', 'method shuffle + target ending in >= 2 consecutive fixed positions', [], []),
+ 'C20-D': ('C20', 'suffix decoy header built from seq.id', '--decoy-string-position suffix + header containing blanks', [], []),
+})
 res = {}
 for f in glob.glob('/tmp/seed/results/batch*.log'):
     for line in open(f):
@@ -57,6 +97,11 @@ for key, (prop, change, needs, caught, missed) in sorted(T.items()):
     d = V/'seeded'/key
     if not (d/'patch.diff').exists():
         continue
+    if key in res:
+        got = dict(x.split(':rc=') for x in res[key].split('checks:')[-1].split())
+        auto_c = [k for k, v in got.items() if v == '1']
+        caught = sorted(set(caught) | set(auto_c))
+        missed = sorted((set(missed) | {k for k, v in got.items() if v == '0'}) - set(caught))
     meta = dict(id=key, property_broken=prop, change=change, needs_to_manifest=needs,
         demonstration='demo.py: exits 1 with patch.diff applied to /repo HEAD, 0 without (run from the checkout root with /venv/bin/python)',
         confirmed_by='tools/seeded.sh: scratch worktree of /repo HEAD; demo on the clean tree (exit 0), git apply patch.diff, demo (exit 1), full pytest suite compared with BASELINE.json stable_pass (no stable test lost); then `VERIF_REPO=<worktree> ./run.py check <ID> --tier quick` for the listed checks',
